@@ -2,6 +2,9 @@
 
 pub use app::App;
 
+#[cfg(pavex_verif)]
+pub use analyses::call_graph::verif_find_cycles;
+
 mod analyses;
 mod app;
 mod codegen;
